@@ -557,6 +557,11 @@ def _classes_sched(case):
     return out
 
 
+# the environment pass (runner: environments) repeats the history sub-checks only: the owned schedules are about interleavings,
+# which the interpreter flags / variables of those environments do not touch
+ENV_ONLY = ["generated_histories", "histories_every_function"]
+ENV_ENUM_LIMIT = (12, 200)
+
 SUBCHECKS = [
     SubCheck("state_machine", check_history, strategy=None, nontrivial=_nt, classes=_classes, quick=60, thorough=3000,
              shards_quick=12, shards_thorough=48, setup=_setup,
